@@ -25,11 +25,17 @@ sh("git checkout -- . && git clean -fdq -e _out", wt)
 dst = os.path.join(wt, demodir, "zz_demo_test.go")
 shutil.copy(demo, dst)
 tests = re.findall(r"^func (Test\w+)\(", open(demo).read(), re.M)
+ovflag = ""
+if demodir.rstrip("/") == "cmd/hidi":
+    # cmd/hidi links the cgo ALSA driver: build it with the stub overlaid
+    ovp = os.path.join(out, "try_overlay.json")
+    json.dump({"Replace": {os.path.join(wt, "internal/pkg/midi/driver/alsa/alsa.go"): "/verif/harness/alsa/alsa.go"}}, open(ovp, "w"))
+    ovflag = "-overlay %s " % ovp
 runpat = "^(" + "|".join(tests) + ")$"
-rc0, o0 = sh("go test -vet=off -count=1 -run '%s' ./%s" % (runpat, demodir), wt)
+rc0, o0 = sh("go test %s-vet=off -count=1 -run '%s' ./%s" % (ovflag, runpat, demodir), wt)
 # with the patch
 rca, oa = sh("git apply %s" % patch, wt)
-rc1, o1 = sh("go test -vet=off -count=1 -run '%s' ./%s" % (runpat, demodir), wt)
+rc1, o1 = sh("go test %s-vet=off -count=1 -run '%s' ./%s" % (ovflag, runpat, demodir), wt)
 os.remove(dst)
 rcb, ob = sh("VERIF_REPO=%s /verif/tools/baseline.sh" % wt, wt)
 sh("git checkout -- . && git clean -fdq -e _out", wt)
